@@ -11,7 +11,7 @@ INF = float('inf')
 def build(case, **over):
     c = dict(case); c.update(over)
     p = H.make_problem(c['n'], c['lo'], c['hi'], c['objective'], fail_at=c.get('fail_at'), exc=c.get('exc', 'RuntimeError'),
-                       fail_region=c.get('fail_region'), returns_new_holder=c.get('new_holder', False), discrete=c.get('discrete', 0))
+                       fail_region=c.get('fail_region'), returns_new_holder=c.get('new_holder', False), discrete=c.get('discrete', 0), inf_region=c.get('inf_region'))
     s = H.make_solver(p, r=c['r'], eps=c['eps'], iters=c['iters'], density=c.get('density'), refine=c.get('refine', False), start=c.get('start'))
     return p, s
 
@@ -109,6 +109,8 @@ def c02_long(case):
                 try:
                     s.DoGlobalIteration(batch)
                 except Exception as e:  # noqa
+                    if 'x is outside of interval' not in str(e):      # only the method's own float-resolution guard may end such a run
+                        fails.append('iteration %d: the implementation raised %s: %s' % (it + 1, type(e).__name__, str(e)[:160]))
                     stats['guard'] = str(e); break
                 if len(p.log) != nlog + batch or len(sel) != batch:
                     if len(p.log) != nlog + len(sel):
@@ -297,8 +299,10 @@ def c02_steps(case, check04=True, check06=True):
                 s.Solve()
             s.method.parameters.itersLimit = lim
         if it == case.get('refine_at'):      # a local refinement in the middle of the search must not disturb the decision rule
+            n0 = len(p.log)
             with H.quiet():
                 s.DoLocalRefinement(case.get('refine_iters', 15))
+            del p.log[n0:]      # evaluations of the local phase are not trials of the global search
         rec = H.record(s)
         if check06:
             fails += record_check(case, p, s, where='after %d iterations: ' % (it + 1))
@@ -331,12 +335,16 @@ def c02_steps(case, check04=True, check06=True):
         with H.quiet() as buf:
             try:
                 s.DoGlobalIteration(1)
-            except Exception as e:
+            except BaseException as e:  # noqa  (the injected failure may be a KeyboardInterrupt / SystemExit: the caller handles it and goes on)
+                if isinstance(e, KeyboardInterrupt) and case.get('exc') != 'KeyboardInterrupt':
+                    raise
                 if 'injected failure' in str(e) or 'objective undefined' in str(e):
                     # the objective failed: nothing was evaluated or recorded; the caller goes on and the NEXT trial must again be
                     # placed by the rule on the full partition
                     stats['failures'] = stats.get('failures', 0) + 1
                     continue
+                if 'x is outside of interval' not in str(e):      # only the method's own float-resolution guard may end such a run
+                    fails.append('iteration %d: the implementation raised %s: %s' % (it + 2, type(e).__name__, str(e)[:160]))
                 stats['guard'] = str(e)
                 break
         stats['steps'] += 1
@@ -438,6 +446,8 @@ def evolvent_of(case):
     from iOpt.evolvent.evolvent import Evolvent
     pre = case.get('prehistory') or []
     n, m = case['n'], case['m']
+    if case.get('m_type') == 'int32':      # the density arrives as a 32-bit numpy integer (a value from an array of settings)
+        m = np.int32(m)
     first = pre[0] if pre else None
     if first and first[0] == 'other_bounds':
         ev = Evolvent(first[1], first[2], n, m)
@@ -567,8 +577,14 @@ def c09_point(case):
                 fails.append('N=1 image(inverse(%r)) = %r' % (yy, y2))
         elif any(abs(u - v) > c / 2 * (1 + 1e-9) + 1e-12 for u, v, c in zip(yy, y2, cw)):
             fails.append('image(inverse(%r)) = %r is not the centre of its cell (N=%d m=%d)' % (yy, y2, n, m))
-        if xx != ev.GetPreimages(np_array(yy)):
+        arg = np_array(yy)
+        xp2 = ev.GetPreimages(arg)
+        if xx != xp2:
             fails.append('GetPreimages differs from GetInverseImage at %r' % (yy,))
+        if [float(v) for v in arg] != [float(v) for v in yy]:
+            fails.append('GetPreimages changed its argument: %r -> %r' % (yy, [float(v) for v in arg]))
+        elif xp2 != ev.GetPreimages(arg):
+            fails.append('GetPreimages of the same point asked twice gives %r and then another value' % xp2)
     return fails
 
 
@@ -625,10 +641,19 @@ def c17_history(case):
 
 def c20(case):
     """every trial coordinate on the cell-centre grid of the configured density"""
+    if case.get('density_type') == 'assign':      # params.evolventDensity = m after the parameters object was built
+        case = dict(case, density=('assign', int(case['density'])))
+        p, s = build(case)
+        case = dict(case, density=case['density'][1])
+        return _c20_body(case, p, s)
     if case.get('density_type') == 'numpy':      # the density arrives as a numpy integer (an element of np.arange, a settings array)
         import numpy as np
         case = dict(case, density=np.arange(0, 64)[int(case['density'])])
     p, s = build(case)
+    return _c20_body(case, p, s)
+
+
+def _c20_body(case, p, s):
     with H.quiet():
         s.DoGlobalIteration(case['iters'])
     m = int(case['density'])
@@ -731,27 +756,31 @@ def c13_protocol(case):
     from iOpt.method.listener import Listener
     fails = []
     sub = case['override']  # subset of 'B','E','S'
-    ev = []
-
     class Rec(Listener):
-        pass
+        def __init__(self):
+            self.ev = []
     if 'B' in sub:
-        Rec.BeforeMethodStart = lambda self, method: ev.append(('B',))
+        Rec.BeforeMethodStart = lambda self, method: self.ev.append(('B',))
     if 'E' in sub:
-        Rec.OnEndIteration = lambda self, pts, sol: ev.append(('E', [q.GetX() for q in pts], sol.numberOfGlobalTrials))
+        Rec.OnEndIteration = lambda self, pts, sol: self.ev.append(('E', [q.GetX() for q in pts], sol.numberOfGlobalTrials))
     if 'S' in sub:
-        Rec.OnMethodStop = lambda self, sd, sol, st: ev.append(('S', sol.numberOfGlobalTrials, [float(v) for v in sol.bestTrials[0].point.floatVariables],
-                                                                 sol.bestTrials[0].functionValues[0].value, st))
+        Rec.OnMethodStop = lambda self, sd, sol, st: self.ev.append(('S', sol.numberOfGlobalTrials, [float(v) for v in sol.bestTrials[0].point.floatVariables],
+                                                                      sol.bestTrials[0].functionValues[0].value, st))
     script = [('iter', k) for k in case['script']] + [('solve',)]
     base, bz, nb, _ = trajectory(case, script)
     p, s = build(case)
-    s.AddListener(Rec())
+    r1, r2 = Rec(), Rec()      # two distinct listeners of the same class with equal attributes: both are notified alike
+    s.AddListener(r1)
+    s.AddListener(r2)
     try:
         sol, out = H.run_script(s, script)
     except BaseException as e:
         if isinstance(e, KeyboardInterrupt):
             raise
         return ['listener overriding %r: %s escaped: %s' % (sorted(sub), type(e).__name__, str(e)[:200])]
+    ev = r1.ev
+    if r2.ev != r1.ev:
+        fails.append('two listeners of the same class were attached: the first received %d notifications, the second %d' % (len(r1.ev), len(r2.ev)))
     tr = [tuple(y) for y, _ in p.log]
     if tr != base:
         fails.append('attaching a listener overriding %r changed the trial sequence' % sorted(sub))
